@@ -301,6 +301,32 @@ def explore(chk):
                 chk.property_failure(dict(case, read_nodes=str(capio.obs_nodes(c_.nodes))[:600]),
                                      "SAMI reader: style nodes of a caption are not balanced (a node closes a style that was never opened, or one stays open)")
                 break
+    # ---- SAMI spans whose Style attribute holds several declarations, in any order: italic / bold / underline count wherever
+    #      in the list they stand (an alignment or a colour before them included)
+    osub = chk.sub("sami_style_declaration_order")
+    DECL = {"i": "font-style:italic", "b": "font-weight:bold", "u": "text-decoration:underline"}
+    for k_ in range(40 if chk.tier == "quick" else 1200):
+        sty = osub.choice(["i", "i", "b", "u", "ib", "iu", "ibu"])
+        decls = [DECL[x] for x in sty] + osub.sample(["text-align:center", "text-align:right", "color:yellow", "font-family:Arial", "font-size:12px"], osub.randint(1, 2))
+        osub.shuffle(decls)
+        attr = ";".join(decls) + osub.choice([";", ""])      # the SAMI writer's own spelling: no blank after the semicolon
+        words = [osub.choice(["hello", "world", "fox", "two", "I", "100%"]) for _ in range(3)]
+        tag = osub.choice(["SPAN", "span"])
+        body = '%s <%s Style="%s">%s</%s> %s' % (words[0], tag, attr, words[1], tag, words[2])
+        doc = ('<SAMI><HEAD><STYLE TYPE="text/css"><!--\n.ENCC { Name: English; lang: en-US; }\n--></STYLE></HEAD><BODY>\n'
+               '<SYNC start=1000><P Class=ENCC>%s</P></SYNC>\n<SYNC start=3000><P Class=ENCC>&nbsp;</P></SYNC>\n</BODY></SAMI>\n') % body
+        act = frozenset(sty)
+        want = [(ch, frozenset()) for ch in words[0]] + [(ch, act) for ch in words[1]] + [(ch, frozenset()) for ch in words[2]]
+        case = {"document": doc, "styled_word": words[1], "styles": sty}
+        chk.case(key=("sami-decl-order", doc), nontrivial=True); chk.count("sami_style_declaration_orders")
+        try:
+            rs = core.POOL.get(pycaption.SAMIReader).read(doc)
+            rn = capio.obs_nodes(rs.get_captions(rs.get_languages()[0])[0].nodes)
+        except Exception as e:
+            chk.property_failure(dict(case, error=repr(e)[:300]), "SAMI reader raised on a span with several style declarations"); continue
+        got, bal = node_flags(rn)
+        if not bal or got != want:
+            chk.property_failure(dict(case, read_nodes=str(rn)[:500]), "SAMI reader: the italic / bold / underline of a span depends on where in the Style attribute it is declared")
     # ---- a span that names a class of the caption set AND is italic by itself, through the DFXP writer and reader: whatever the
     #      class says, the characters stay italic
     csub = chk.sub("class_and_inline_italics")
@@ -343,12 +369,17 @@ def explore(chk):
     from pycaption.geometry import Layout, Point, Size, UnitEnum
     def lay_(x, y):
         return Layout(origin=Point(Size(x, UnitEnum.PERCENT), Size(y, UnitEnum.PERCENT)))
+    dsub = chk.sub("span_attribute_order")
     for k_ in range(60 if chk.tier == "quick" else 2000):
         sty = rng.choice(["i", "i", "ib", "iu", "b", "u", "ibu"])
         content = {key: True for x, key in (("i", "italics"), ("b", "bold"), ("u", "underline")) if x in sty}
         extra = rng.choice([{"text-align": "right"}, {"text-align": "center", "color": "yellow"}, {"color": "#ff0000"}, {"font-family": "Arial"},
                             {"font-size": "12px"}, {"text-align": "left", "font-family": "monospace", "color": "white"}])
         content.update(extra)
+        if k_ % 2:
+            # the writers print a span's attributes in the order the style dict holds them: any order (a reader of another
+            # format may have put the alignment first)
+            items_ = list(content.items()); dsub.shuffle(items_); content = dict(items_)
         words = [rng.choice(WORDS) for _ in range(3)]
         nodes = [CaptionNode.create_text(words[0] + " "), CaptionNode.create_style(True, dict(content)), CaptionNode.create_text(words[1]),
                  CaptionNode.create_style(False, dict(content)), CaptionNode.create_text(" " + words[2])]
